@@ -28,8 +28,8 @@ EXPLANATION = ('For all angles and axes, every rotation constructor is decided t
                'and to_axis_angle / to_scaled_axis rebuild the quaternion.  Error growth near the singularities is not decided.')
 LEVEL_NOTE = 'Decides the constructor clause and the regular-branch inversion clause for all inputs; numeric error near gimbal lock is not claimed. Trusted: rustc MIR, intrinsic table, rules/spec.py, sin^2+cos^2=1.'
 
-CONFIGS_QUICK = ['sse2', 'scalar']
-CONFIGS_THOROUGH = ['sse2', 'scalar', 'coresimd', 'neon', 'wasm32']
+CONFIGS_QUICK = ['sse2', 'sse2-fma', 'sse41', 'scalar', 'coresimd', 'neon', 'wasm32']
+CONFIGS_THOROUGH = ['sse2', 'sse2-fma', 'sse41', 'scalar', 'coresimd', 'neon', 'wasm32']
 ROT3 = {'Mat3', 'Mat3A', 'Mat4', 'DMat3', 'DMat4', 'Affine3A', 'DAffine3'}
 QUATS = {'Quat', 'DQuat'}
 AXIS = {'X': 0, 'Y': 1, 'Z': 2}
